@@ -298,6 +298,7 @@ type c14Run struct {
 	dir     string // case directory
 	rootAbs string // of the root currently being rendered
 	rootDir string
+	other   *liquid.Engine
 	roots   [2]struct {
 		abs, dir string
 		tpl      *liquid.Template
@@ -328,6 +329,38 @@ func c14Setup(cs *C14Case, scratch string, tag string) (*c14Run, Res) {
 	}
 	x.eng = NewEngine(cs.Cfg)
 	registerSnap(x.eng)
+	// refinc: the reference implementation of include, used in place of the include tag:
+	// evaluate the argument, let the harness's disk/cache MODEL choose the content, render
+	// that content directly with the current variables, hand back one string.
+	x.eng.RegisterTag("refinc", func(ctx render.Context) (string, error) {
+		v, err := ctx.EvaluateString(ctx.TagArgs())
+		if err != nil {
+			return "", err
+		}
+		target, ok := v.(string)
+		if !ok {
+			return "", ctx.Errorf("refinc: non-string argument")
+		}
+		kind, src := x.choose(x.abs(target), nil)
+		if kind != "content" {
+			return "", ctx.Errorf("refinc: %s unresolvable or ambiguous", target)
+		}
+		vars := map[string]any{}
+		for k, val := range ctx.Bindings() {
+			vars[k] = val
+		}
+		p := ParseLoc(x.eng, src, x.rootAbs, 1)
+		if p.T == nil {
+			return "", ctx.Errorf("refinc: %s", p.Err.Err)
+		}
+		out, rerr := p.T.Render(vars)
+		if rerr != nil {
+			return "", rerr
+		}
+		return string(out), nil
+	})
+	// another engine of the same process registers OTHER source for the same paths
+	x.other = NewEngine(cs.Cfg)
 	x.b = cs.Env.Build(nil)
 	type placed struct {
 		f *C14File
@@ -384,6 +417,14 @@ func c14Setup(cs *C14Case, scratch string, tag string) (*c14Run, Res) {
 			return nil, r
 		}
 	}
+	for _, pl := range all {
+		p := pl.p
+		guard(func() Res {
+			x.other.ParseTemplateAndCache([]byte("[source registered with ANOTHER engine]"), p, 1)
+			return Res{}
+		})
+	}
+	includeMode = 0
 	src := Source(cs.Root)
 	p := ParseLoc(x.eng, src, x.rootAbs, 1)
 	if p.T == nil {
@@ -678,6 +719,36 @@ func (x *c14Run) failsWithoutIncludes() bool {
 	return !r.OK
 }
 
+// bareVsReference renders the current root twice without sentinels: once with its
+// include tags, once with each include replaced by refinc. Both put one string in
+// the same place, so the outputs must be identical whenever the reference succeeds.
+func (x *c14Run) bareVsReference() *c14Out {
+	simrt.SetMapOrder(simrt.OrderAsc, 0)
+	simrt.SetClock(t0)
+	curSnap = nil
+	tree := x.roots[x.cur].tree
+	render := func(mode int) Res {
+		includeMode = mode
+		src := Source(tree)
+		includeMode = 0
+		p := ParseLoc(x.eng, src, x.rootAbs, 1)
+		if p.T == nil {
+			return p.Err
+		}
+		return Run(EPRender, x.eng, p.T, "", x.b, nil)
+	}
+	ref := render(2)
+	if !ref.OK {
+		return nil // the reference refuses (unresolvable / ambiguous target, error inside): judged by the sentinel oracle
+	}
+	got := render(1)
+	o := &c14Out{res: got}
+	if got.Panic == "" && got.Key() != ref.Key() {
+		o.clause, o.detail = "include-equals-reference", fmt.Sprintf("the root rendered with its include tags gives %s; with each include replaced by a tag that renders the selected content directly and returns it as one string, it gives %s", clip(got.Key()), clip(ref.Key()))
+	}
+	return o
+}
+
 // concurrent runs two tasks that render the current root at the same time.
 func (x *c14Run) concurrent(r *Rng) *c14Out {
 	simrt.SetMapOrder(simrt.OrderAsc, 0)
@@ -915,6 +986,14 @@ func c14Find(c *Ctx, cs *C14Case, scratch, tag string, out *CaseOut, wantSig str
 	}
 	if runOnce(0) {
 		return fails
+	}
+	// Same root, no sentinels: the include tag against the reference tag in the same place
+	// (this is where trim markers adjacent to an include are exercised).
+	if o := x.bareVsReference(); o != nil {
+		out.Evals += 2
+		if record(o, -1, "", 0) {
+			return fails
+		}
 	}
 	// Two caller tasks render the root concurrently under a seeded schedule (snap/mark
 	// off): each must get what a lone render gives. Include is the only tag that
